@@ -48,6 +48,19 @@ check("C06", "exploration", "bounded-exhaustive history exploration on the real 
       "Same explorer as C01 with vacuum and doctor added to the alphabet; the invariants owned by this property: next_frame_id() sampled before each put/update equals the id the reference assigns, ids are dense in put order with chunk frames right after their parent, and (uri, role, content digest, timestamp) of an id never change once observed (for inactive frames, whose payload vacuum may reclaim, uri/role/timestamp).",
       "Violations that belong to other properties (e.g. a failing commit) stop a history from being extended but are reported by their own check.", "DESIGN.md §3 C06", "hist")
 
+check("C15", "exploration", "bounded-exhaustive history x query enumeration on the real implementation against a reference",
+      "Every list of <=2 (quick) / <=3 (thorough) frames over {whole document, chunked document, extracted-image child} x timestamps {-5,0,7,i64::MAX} incl. duplicates, optionally one delete, observed after commit, after close+open and after doctor(rebuild_time_index); on each, all 200 timeline queries (since/until in {None,-5,0,7,8}, limit in {None,1,2,10}, reverse on/off) must equal the reference sequence: active Document/ExtractedImage frames sorted by (timestamp, id), inclusive bounds, reversed, prefix by limit.",
+      "Extracted images are put after their parent document is committed (the API resolves parent ids against committed frames only).", "DESIGN.md §3 C15", "hist")
+check("C19", "exploration", "bounded-exhaustive history exploration with a directory listing after every call",
+      "Every op sequence up to depth 2 (quick) / 3 (thorough) over 16 ops (puts, update, delete, commit, close+open, leaked handle, vacuum, doctor, four calls that must fail, a zero-headroom ticket, a put under it) with a listing of the memory's directory after every call: it must hold exactly the one .mv2 file, and a failing call must not change frame_count/next_frame_id; plus all 8 forbidden sidecar names x {create, open, open_read_only, doctor}: AuxiliaryFileDetected, directory and file bytes unchanged.",
+      "Tantivy work directories are redirected (TMPDIR) to the harness scratch, outside the memory's directory, as they are by default (system temp dir).", "DESIGN.md §3 C19", "hist")
+check("C24", "exploration", "bounded-exhaustive history exploration on the real implementation against a reference model",
+      "For each headroom c in {32,64} (quick) / {0,1,31,32,33,64,100} (thorough): a ticket granting capacity = payload end + c, then every sequence up to depth 3 (quick) / 4 (thorough) of puts of incompressible 1/32/33/64-byte binaries, commit and close+open, from a fresh file and from a file with committed data. Oracle: an accepted put satisfies committed payload end + acknowledged pending bytes + size <= capacity; a rejection is CapacityExceeded and changes nothing; after every commit/open no payload ends beyond the capacity.",
+      "The statement does not oblige a put below the limit to succeed; conservative rejections are counted in the evidence, not flagged.", "DESIGN.md §3 C24", "hist")
+check("C26", "exploration", "bounded-exhaustive history exploration on the real implementation",
+      "Every op sequence up to depth 2 (quick) / 4 (thorough) over {put of a sentence the rules engine extracts a card from, same with instant index + enable_embedding (fills the enrichment queue), chunked put, plain put, delete, update, commit, close+open, leaked handle}, also from states where WAL sequence numbers and frame ids have diverged. After every commit/open and at the end: each card names an existing frame whose uri is the card's source uri and whose text contains the card value; each enrichment record names a frame that is the source of a card; each enrichment-queue entry names a frame that was queued.",
+      "Card source uris are taken from the cards themselves (the extractor records them).", "DESIGN.md §3 C26", "hist")
+
 NOT_APPLICABLE = {}
 
 def main():
